@@ -18,14 +18,13 @@ from vp import Infra, log
 MC = {
     "C01": {"quick": ["MC_C01_quick.cfg"], "thorough": ["MC_C01_thorough.cfg", "MC_C01_stop.cfg"]},
     "C02": {"quick": ["MC_C02_quick.cfg"], "thorough": ["MC_C02_thorough.cfg"]},
-    "C03": {"quick": ["MC_C03_quick.cfg"], "thorough": ["MC_C03_thorough.cfg", "MC_C03_stop.cfg"]},
+    "C03": {"quick": ["MC_C03_quick.cfg", "MC_C03_stopquick.cfg"], "thorough": ["MC_C03_thorough.cfg", "MC_C03_stop.cfg"]},
     "C04": {"quick": ["MC_C04_quick.cfg"], "thorough": ["MC_C04_thorough2.cfg", "MC_C04_thorough.cfg"]},
     "C05": {"quick": ["MC_C05_quick.cfg"], "thorough": ["MC_C05_quick.cfg", "MC_C05_thorough.cfg"]},
     "C15": {"quick": ["MC_C15_quick.cfg", "MC_C15_live.cfg"], "thorough": ["MC_C15_thorough.cfg", "MC_C15_live.cfg"]},
 }
 # invariants that the model of the current code violates: counter-examples are leads to replay
 LEADS = {
-    "C03": ["MC_lead_C03_NoGhost.cfg"],
     "C04": ["MC_lead_C04_HandlerLog.cfg", "MC_lead_C04_NoRunningLeft.cfg"],
     "C05": ["MC_lead_C05_NoLateStart.cfg", "MC_lead_C05_KillReaches.cfg"],
 }
